@@ -112,12 +112,16 @@ impl<'b> Bytes<'b> {
 
     #[inline]
     pub fn as_string(&self, encoding: &'static Encoding) -> String {
-        encoding.decode(self.0).0.into_owned()
+        // NOTE: no BOM sniffing: these are bytes from the middle of a document in a known encoding
+        encoding.decode_without_bom_handling(self.0).0.into_owned()
     }
 
     #[inline]
     pub fn as_lowercase_string(&self, encoding: &'static Encoding) -> String {
-        encoding.decode(self.0).0.to_ascii_lowercase()
+        encoding
+            .decode_without_bom_handling(self.0)
+            .0
+            .to_ascii_lowercase()
     }
 
     #[inline]
